@@ -188,7 +188,8 @@ Definition category_of (s : rule_shape) : category :=
   else if is_removeparam s then CatRemoveparam
   else if is_generic_hide s then CatGenericHide
   else if is_exception s then CatExceptions
-  else if is_important s then CatImportants
+  else if is_important s && (negb (is_redirect s) || also_block_redirect s) then CatImportants
+                                  (* a redirect-rule never blocks, important or not *)
   else if sh_tagged s && negb (is_redirect s) then CatTagged
   else if (is_redirect s && also_block_redirect s) || negb (is_redirect s) then CatFilters
   else CatNowhere.
@@ -203,6 +204,12 @@ Definition blocking_category (c : category) : bool :=
 (* what NetworkFilter::parse adds to the mask for the two options *)
 Definition mask_redirect_option (m : N) : N := N.lor (N.lor m M_IS_REDIRECT) M_ALSO_BLOCK_REDIRECT.
 Definition mask_redirect_rule_option (m : N) : N := N.lor m M_IS_REDIRECT.
+
+(* `self.redirects.check_all(request, &NO_TAGS, ..)`: a rule is delivered to the two loops iff it
+   matches and is untagged or its tag is in the tag set handed to check_all — which is empty *)
+Definition delivered (matches : bool) (tag : option str) (active_tags : list str) : bool :=
+  matches && match tag with None => true | Some t => mem_str t active_tags end.
+Definition NO_TAGS : list str := [].
 
 (* ================================================================ the verdict *)
 (* The blocking side of check_parameterised, abstracted to what it computes: *)
